@@ -368,6 +368,32 @@ def finishPh (c : Cfg α) (ps : PhaseSt α) : PhaseSt α :=
   let vol := fun i => fn psd i * npow (fn g.size i) 3
   { ps with grid := g, dissIdx := PBM.dissolutionIndex g.bins c.maxDissolution vol ps.rdfIdx }
 
+/-- the `if change:` branch of the phase loop for phase p whose grid became `g2`: growth field zeroed at the new length,
+tables rebuilt (re-mesh), completed (extension) or zeroed (multicomponent), growth rate recomputed on a copy of the newest row -/
+def afterAdjust (c : Cfg α) (s : St α) (p : Nat) (ps : PhaseSt α) (g2 : Grid.State α) (change : Bool) (added : Option Nat)
+    (u : UpdAns α) : St α :=
+  let cur := s.cur c.nElem
+  let ps2 := { ps with grid := g2 }
+  let s2 := { s with ph := setPh s.ph p ps2 }
+  if change then
+    let ps3 := { ps2 with growth := zerosL g2.bounds.length }
+    let s3 := { s2 with ph := setPh s2.ph p ps3 }
+    let s4 :=
+      if c.binary then
+        match added with
+        | none => createLookup cur.temp u.table s3
+        | some k =>
+          let ext := fun (col new : List α) =>
+            let padded := col ++ zerosL (g2.bins + 1 - col.length)
+            padded.take k ++ new
+          { s3 with ph := setPh s3.ph p { ps3 with xaT := [ext (ps3.xaT.headD []) u.xaNew],
+                                                    xbT := [ext (ps3.xbT.headD []) u.xbNew] } }
+      else
+        { s3 with ph := setPh s3.ph p { ps3 with xaT := List.replicate c.nElem (zerosL (g2.bins + 1)),
+                                                  xbT := List.replicate c.nElem (zerosL (g2.bins + 1)) } }
+    (growthRate c s4 u.regrow cur).1
+  else s2
+
 /-- the body of the phase loop for phase p; `none` where the implementation raises -/
 def updatePh (c : Cfg α) (s : St α) (t : α) (p : Nat) (xp : List α) (u : UpdAns α) : Option (St α) :=
   let cur := s.cur c.nElem
@@ -381,33 +407,15 @@ def updatePh (c : Cfg α) (s : St α) (t : α) (p : Nat) (xp : List α) (u : Upd
                                                  xbT := List.replicate c.nElem (zerosL (g.bins + 1)),
                                                  growth := zerosL (g.bins + 1) } }
     else
+      -- a state vector whose length is not the class count makes the masked assignments at the end of the loop body raise
+      if xp.length ≠ ps.grid.bins then none else
       match Grid.update ps.grid t xp with
       | none => none
       | some g1 =>
         match Grid.adjust g1 (ps.growth.all (fun v => decide (v < 0))) with
         | none => none
         | some (g2, change, added) =>
-          let ps2 := { ps with grid := g2 }
-          let s2 := { s with ph := setPh s.ph p ps2 }
-          let s3 :=
-            if change then
-              let ps3 := { ps2 with growth := zerosL g2.bounds.length }
-              let s3 := { s2 with ph := setPh s2.ph p ps3 }
-              let s4 :=
-                if c.binary then
-                  match added with
-                  | none => createLookup cur.temp u.table s3
-                  | some k =>
-                    let ext := fun (col new : List α) =>
-                      let padded := col ++ zerosL (g2.bins + 1 - col.length)
-                      padded.take k ++ new
-                    { s3 with ph := setPh s3.ph p { ps3 with xaT := [ext (ps3.xaT.headD []) u.xaNew],
-                                                              xbT := [ext (ps3.xbT.headD []) u.xbNew] } }
-                else
-                  { s3 with ph := setPh s3.ph p { ps3 with xaT := List.replicate c.nElem (zerosL (g2.bins + 1)),
-                                                            xbT := List.replicate c.nElem (zerosL (g2.bins + 1)) } }
-              (growthRate c s4 u.regrow cur).1
-            else s2
+          let s3 := afterAdjust c s p ps g2 change added u
           match s3.ph[p]? with
           | none => none
           | some psF => some { s3 with ph := setPh s3.ph p (finishPh c psF) }
